@@ -13,9 +13,13 @@
   One task, one schedule. A schedule is a list of steps; each step is either one
   event delivered to the executor (MESSAGE transition START/STOP/CONFIGURE,
   MESSAGE TriggerHook, KILL) or one asynchronous happening placed at a definite
-  position: `tick` (the 200 ms TASK_RUNNING timer armed by doLaunch fires) and
-  `await` (the latest child ends on its own and its reaper goroutine runs).
-  The LAUNCH event is always step 0 (`init`).
+  position: `tick` (the 200 ms TASK_RUNNING timer armed by doLaunch fires),
+  `await` (the latest child ends on its own and its reaper goroutine runs; a
+  controllable task that is still dialling has no reaper yet: its command stays a
+  zombie) and `giveup` (the gRPC dial of a controllable task's Launch gives up:
+  TASK_FAILED, then doTermIntKill over the task's process GROUP — `escalateGroup`,
+  a leader and members with signal dispositions of their own, pidExists seeing the
+  leader only). The LAUNCH event is always step 0 (`init`).
 
   The model describes the code THAT EXISTS: a handler that would dereference nil
   yields the explicit result `crash <site>`, a send on the full
@@ -27,10 +31,14 @@
   code before the last two (the repairs of two defects that need overlapping requests:
   Model/ExecOverlap) — the former refutations stay true statements about that code.
   Props/C17 ties every switch of `codeCfg` to a fact re-extracted from the source.
+  An eighth switch is not a repair: `launchFailKeepsLeader` (nobody waits for the command
+  on the launch-failure path, in every version of the code); `reapingCfg` turns it off to
+  state what the no-survivors theorem of a given-up launch depends on.
 
   What the children do is a parameter (`Beh`); operating-system facts used:
   a process group that received SIGKILL is gone; SIGTERM/SIGINT end a process
-  unless it ignores them; a child that forked keeps helpers in its group.
+  unless it ignores them; a child that forked keeps helpers in its group; a process
+  that ended and was not waited for keeps its pid (kill(pid, 0) succeeds).
 -/
 import ControlModel.Basic
 
@@ -59,22 +67,34 @@ structure Cfg where
       it ran, while basicTaskBase.Kill sets the field to nil from another goroutine). Matters only when requests
       overlap (Model/ExecOverlap). -/
   startOwnsCmd : Bool
+  /-- NOT a repair — how the code has always been, a switch only to say what depends on it: on the launch-failure
+      paths of ControllableTask.Launch nobody waits for the command before or while doTermIntKill(-pgid) runs.
+      A group leader that dies of a signal therefore stays a zombie, and pidExists(-pgid) — which looks at the
+      LEADER of the group only — stays true until the whole group has got SIGKILL. `false` = the command is reaped
+      while its group is being escalated (`reapingCfg`, not the code): the escalation then stops as soon as the
+      leader is gone, whatever is left of the group. -/
+  launchFailKeepsLeader : Bool
   deriving DecidableEq, Repr, Inhabited
 
 /-- The code before the repairs. -/
 def legacyCfg : Cfg :=
   { stopNilSafe := false, launchNilSafe := false, startFailSafe := false, killInactiveIgnored := false,
-    killStopsTimer := false, killClaimsEntry := false, startOwnsCmd := false }
+    killStopsTimer := false, killClaimsEntry := false, startOwnsCmd := false, launchFailKeepsLeader := true }
 
 /-- The code after the first five repairs and before the two that concern overlapping requests (/repo d83ccb7). -/
 def overlapLegacyCfg : Cfg :=
   { stopNilSafe := true, launchNilSafe := true, startFailSafe := true, killInactiveIgnored := true,
-    killStopsTimer := true, killClaimsEntry := false, startOwnsCmd := false }
+    killStopsTimer := true, killClaimsEntry := false, startOwnsCmd := false, launchFailKeepsLeader := true }
 
 /-- The code as it is (identified with the facts extracted from the source in Props/C17). -/
 def codeCfg : Cfg :=
   { stopNilSafe := true, launchNilSafe := true, startFailSafe := true, killInactiveIgnored := true,
-    killStopsTimer := true, killClaimsEntry := true, startOwnsCmd := true }
+    killStopsTimer := true, killClaimsEntry := true, startOwnsCmd := true, launchFailKeepsLeader := true }
+
+/-- NOT the code: the code as it is, except that the launch-failure path reaps the command while it escalates
+    its process group (what a well-meant "do not leave a zombie behind" would do). Kept to state what the
+    no-survivors theorems of the launch failure depend on (Props/C17). -/
+def reapingCfg : Cfg := { codeCfg with launchFailKeepsLeader := false }
 
 /-- controlmode.BASIC / HOOK / DIRECT(=controllable); `nodata` = TaskInfo.Data missing. -/
 inductive Kind where
@@ -89,13 +109,21 @@ inductive Kind where
     controllable children: `noport` never opens its control port, `nobin` cannot be started,
     `occ*` serve OCC and walk to DONE when asked: `occ` exits at DONE, `occstay` stays and dies of
     SIGTERM, `occign` ignores SIGTERM/SIGINT, `occfork` has a helper in its group, `occfail` = `occ`
-    that exits 3 when it ends on its own. -/
+    that exits 3 when it ends on its own.
+    `noport*`: controllable children that never open their control port, told apart by the PROCESS GROUP the
+    executor has to terminate when it gives the launch up (`Beh.lead`, `Beh.members`: how the group leader and the
+    other members treat SIGTERM and SIGINT): `noport` a leader alone that obeys; `noportfork` + a member that
+    obeys; `noportkid` + a member that ignores both signals; `noportkidt` + a member that ignores SIGTERM only;
+    `noportign` leader and member ignore both; `noportmix` an obeying leader with one member of each kind. -/
 inductive Beh where
   | ok | fail | sig | fork | nobin | noport | occ | occstay | occign | occfork | occfail | ign
+  | noportfork | noportkid | noportkidt | noportign | noportmix
   deriving DecidableEq, Repr, Inhabited
 
+/-- `giveup`: the gRPC dial of ControllableTask.Launch gives up (GRPC_DIAL_TIMEOUT after it began) — like `tick`
+    and `await` an asynchronous happening that the schedule gives a position. -/
 inductive Op where
-  | tick | start | stop | conf | trigger | kill | await
+  | tick | start | stop | conf | trigger | kill | await | giveup
   deriving DecidableEq, Repr, Inhabited
 
 /-- The shape in which the command reaches prepareTaskCmd (task.go): TaskCommandInfo.Shell and .Arguments.
@@ -134,6 +162,32 @@ inductive Dev where
 
 inductive Sig where
   | TERM | INT | KILL
+  deriving DecidableEq, Repr, Inhabited
+
+/-- What a process does with SIGTERM and SIGINT (SIGKILL ends every process). -/
+inductive Disp where
+  | obey       -- dies of either
+  | ignTerm    -- ignores SIGTERM, dies of SIGINT
+  | ignAll     -- ignores both
+  deriving DecidableEq, Repr, Inhabited
+
+def Disp.survives : Disp → Sig → Bool
+  | .ignTerm, .TERM => true
+  | .ignAll, .TERM => true
+  | .ignAll, .INT => true
+  | _, _ => false
+
+/-- A process group as doTermIntKill(-pgid) meets it: the leader (the command the executor started — its pid is
+    the group's id) and the other members. -/
+structure Grp where
+  /-- how the leader treats the signals -/
+  lead : Disp
+  /-- the leader is running -/
+  leadLive : Bool
+  /-- the leader has ended and nobody has waited for it: the pid still exists -/
+  leadZombie : Bool
+  /-- the other members that are running -/
+  members : List Disp
   deriving DecidableEq, Repr, Inhabited
 
 /-- Where the executor process panics. -/
@@ -187,6 +241,11 @@ structure St where
   sigs    : List Sig
   /-- a KILL request has been carried out -/
   killed  : Bool
+  /-- the executor has given the launch up (dial timeout): TASK_FAILED reported, the group escalated -/
+  gaveUp  : Bool
+  /-- signals sent to the process GROUP by the doTermIntKill of the launch failure, in order (not observable:
+      the members of such a group do not report what they receive) -/
+  gsigs   : List Sig
   deriving DecidableEq, Repr, Inhabited
 
 /-! ### behaviours -/
@@ -217,6 +276,25 @@ def Beh.exitsAtDone : Beh → Bool
 def Beh.ignoresTermInt : Beh → Bool
   | .occign => true
   | _ => false
+
+/-- never opens its control port -/
+def Beh.unready : Beh → Bool
+  | .noport | .noportfork | .noportkid | .noportkidt | .noportign | .noportmix => true
+  | _ => false
+
+/-- how the leader of an unready task's process group treats SIGTERM / SIGINT -/
+def Beh.lead : Beh → Disp
+  | .noportign => .ignAll
+  | _ => .obey
+
+/-- the other members of an unready task's process group -/
+def Beh.members : Beh → List Disp
+  | .noportfork => [.obey]
+  | .noportkid => [.ignAll]
+  | .noportkidt => [.ignTerm]
+  | .noportign => [.ignAll]
+  | .noportmix => [.obey, .ignTerm, .ignAll]
+  | _ => []
 
 def Kind.basicLike : Kind → Bool
   | .basic | .hook => true
@@ -286,6 +364,35 @@ def escalate (b : Beh) : List Sig × Child :=
   else if !b.ignoresTermInt then ([.TERM], .signalled)
   else ([.TERM, .INT, .KILL], .signalled)
 
+/-! ### doTermIntKill over a process GROUP (the launch-failure paths of ControllableTask.Launch) -/
+
+/-- pidExists(-pgid): the pid of the group LEADER exists — running, or ended and not waited for. -/
+def Grp.leaderSeen (g : Grp) : Bool := g.leadLive || g.leadZombie
+
+/-- kill(-pgid, sig) finds a process to signal (a zombie counts). -/
+def Grp.any (g : Grp) : Bool := g.leaderSeen || !g.members.isEmpty
+
+/-- some process of the group still runs -/
+def Grp.live (g : Grp) : Bool := g.leadLive || !g.members.isEmpty
+
+/-- kill(-pgid, sig): every running process that does not ignore the signal ends. A leader that ends stays a
+    zombie if nobody waits for it (`keeps`), else it is gone at once. -/
+def Grp.signal (keeps : Bool) (g : Grp) (sg : Sig) : Grp :=
+  { g with leadLive := g.leadLive && g.lead.survives sg,
+           leadZombie := (g.leadZombie || (g.leadLive && !g.lead.survives sg)) && keeps,
+           members := g.members.filter (fun d => d.survives sg) }
+
+/-- doTermIntKill(-pgid), statement by statement: SIGTERM to the group; if that could be delivered, after
+    SIGTERM_TIMEOUT `if pidExists(pid)` SIGINT and SIGINT_TIMEOUT; then `if !pidExists(pid) return`; else SIGKILL.
+    Both tests see the leader only. Returns the signals sent and what is left of the group. -/
+def escalateGroup (keeps : Bool) (g : Grp) : List Sig × Grp :=
+  let g0 : Grp := { g with leadZombie := g.leadZombie && keeps }    -- a Wait() in flight collects a zombie at once
+  let g1 := g0.signal keeps .TERM
+  let int := g0.any && g1.leaderSeen
+  let g2 := if int then g1.signal keeps .INT else g1
+  let sg := if int then [Sig.TERM, .INT] else [.TERM]
+  if g2.leaderSeen then (sg ++ [.KILL], g2.signal keeps .KILL) else (sg, g2)
+
 /-- the device's answer to a transition request -/
 def devEdge : Op → Option (Dev × Dev)
   | .conf => some (.STANDBY, .CONFIGURED)
@@ -314,6 +421,22 @@ def reapCtl (s : St) (c : Child) : St :=
   { s with child := c, reaped := true, pending := none, rpc := false, active := false,
            out := s.out ++ [.term fin] }
 
+/-- the process group of a controllable task as its Launch goroutine finds it when the dial gives up -/
+def grpOf (s : St) : Grp :=
+  { lead := s.beh.lead, leadLive := s.child = .running,
+    leadZombie := s.child ≠ .running && s.child ≠ .notStarted && !s.reaped,
+    members := if s.helpers then s.beh.members else [] }
+
+/-- ControllableTask.Launch, `t.rpc == nil` after NewClient: TASK_FAILED (which takes the task out of
+    activeTasks), then doTermIntKill(-pid) over the process group. Nobody has called Wait(). -/
+def giveUp (c : Cfg) (s : St) : St :=
+  { s with active := false, gaveUp := true,
+           gsigs := (escalateGroup c.launchFailKeepsLeader (grpOf s)).1,
+           child := if s.child = .running && !(escalateGroup c.launchFailKeepsLeader (grpOf s)).2.leadLive
+                    then .signalled else s.child,
+           helpers := !(escalateGroup c.launchFailKeepsLeader (grpOf s)).2.members.isEmpty,
+           out := s.out ++ [.term .FAILED] }
+
 /-- One step. The task is looked up in activeTasks first (handlers.go). -/
 def step (c : Cfg) (s : St) (op : Op) : St × Res :=
   match op with
@@ -327,8 +450,13 @@ def step (c : Cfg) (s : St) (op : Op) : St × Res :=
       if s.kind.basicLike then
         ({ s with child := c, reaped := true, pending := none, out := s.out ++ [bttOf c s.pending] }, .ok)
       else if s.kind = .ctl && s.rpc then (reapCtl s c, .ok)
-      else (s, .none)            -- controllable, still dialling: nobody calls Wait()
+      else if s.kind = .ctl && s.active then
+        ({ s with child := c }, .ok)   -- controllable, still dialling: nobody calls Wait() — the leader stays a zombie
+      else (s, .none)
     else (s, .none)
+  | .giveup =>
+    -- only a controllable task whose Launch goroutine is still dialling has a dial that can give up
+    if s.kind = .ctl && s.active && !s.rpc then (giveUp c s, .ok) else (s, .none)
   | .kill =>
     if !s.active then
       if c.killInactiveIgnored then (s, .ignored)                        -- logged, nothing to do
@@ -370,7 +498,7 @@ def base (k : Kind) (b : Beh) : St :=
   { kind := k, beh := b, loop := true, active := false, timer := false, cmd := false, child := .notStarted,
     reaped := false, pending := none, orphans := 0, helpers := false, helpersOld := false, rpc := false,
     dev := .STANDBY,
-    out := [], sigs := [], killed := false }
+    out := [], sigs := [], killed := false, gaveUp := false, gsigs := [] }
 
 /-- Step 0: the LAUNCH event.
     `nodata`: NewTask reports TASK_FAILED and returns nil; repaired, handleLaunchEvent stops there (the task
@@ -389,7 +517,7 @@ def init (c : Cfg) (k : Kind) (b : Beh) : St × Res :=
       else (base k b, .crash .ctlLaunch)
     else if b.ready then
       ({ base k b with active := true, child := .running, rpc := true, helpers := b.forks, out := [.running] }, .ok)
-    else ({ base k b with active := true, child := .running }, .ok)
+    else ({ base k b with active := true, child := .running, helpers := !b.members.isEmpty }, .ok)
 
 def Res.halts : Res → Bool
   | .crash _ | .hang => true
@@ -497,16 +625,19 @@ def Kind.parse? : String → Option Kind
 def Beh.parse? : String → Option Beh
   | "ok" => some .ok | "fail" => some .fail | "sig" => some .sig | "fork" => some .fork | "nobin" => some .nobin
   | "noport" => some .noport | "occ" => some .occ | "occstay" => some .occstay | "occign" => some .occign
-  | "occfork" => some .occfork | "occfail" => some .occfail | "ign" => some .ign | _ => none
+  | "occfork" => some .occfork | "occfail" => some .occfail | "ign" => some .ign
+  | "noportfork" => some .noportfork | "noportkid" => some .noportkid | "noportkidt" => some .noportkidt
+  | "noportign" => some .noportign | "noportmix" => some .noportmix | _ => none
 
 def Op.parse? : String → Option Op
   | "tick" => some .tick | "start" => some .start | "stop" => some .stop | "conf" => some .conf
-  | "trigger" => some .trigger | "kill" => some .kill | "await" => some .await | _ => none
+  | "trigger" => some .trigger | "kill" => some .kill | "await" => some .await | "giveup" => some .giveup
+  | _ => none
 
 /-- the (kind, behaviour) pairs the harness can build -/
 def validCase : Kind → Beh → Bool
   | .basic, b | .hook, b => b = .ok || b = .fail || b = .sig || b = .fork || b = .nobin || b = .ign
-  | .ctl, b => b = .noport || b = .nobin || b.ready
+  | .ctl, b => b.unready || b = .nobin || b.ready
   | .nodata, b => b = .ok
 
 def Shape.parse? : String → Option Shape
